@@ -426,6 +426,14 @@ def gen(args) -> list:
             ev = {"op": "rt", "type": typ, "pattern": pname, "tokens": tokens, "culture": culture.name if culture is not None else "",
                   "roundtrip_builtin": builtin, "ampm_ok": ampm_ok, "text_ok": text_ok, "value": fields(typ, v),
                   "time_sep": tsep if not builtin else cps(":"), "date_sep": dsep if not builtin else cps("/")}
+            if not builtin and not pname.startswith("standard:"):
+                # generated pattern: the tokens are exactly its text, so the reference formatter can be asked for the text too
+                ev["exact_tokens"] = True
+                try:
+                    fi = _fi(culture)
+                    ev["am"], ev["pm"] = cps(fi.am_designator), cps(fi.pm_designator)
+                except Exception:  # noqa: BLE001
+                    pass
             if "yymax" in ev["value"]:
                 ev["value"]["yymax"] = yymax
             if text_ok and any(t in ("MMM", "MMMM", "ddd", "dddd") for t in tokens):
@@ -476,6 +484,22 @@ def gen(args) -> list:
     return evs
 
 
+_FRACS = {pre + c * k for pre in ("", ".", ";") for c in "fF" for k in range(1, 10)}
+_LITS = {" ", "-", ",", ".", "'at'", "\\h", "'T'", "'of'", "'.'", "\\.", "'d'", "'x'", "\\:", "\\d"}
+_REF_VOCAB = {
+    "fields": {"HH", "H", "hh", "h", "mm", "m", "ss", "s", "tt", "t", ":", "/", "yyyy", "yy", "uuuu", "uuu", "uu", "u", "MM", "M", "dd", "d"} | _FRACS | _LITS,
+    "Offset": {"+", "-", "HH", "H", "mm", "m", "ss", "s", ":", "'x'", "\\:", " "},
+    "Duration": {"+", "-", "DD", "D", "hh", "h", "mm", "m", "ss", "s", ":", ".", " ", "'d'", "'.'", "\\."} | _FRACS,
+}
+
+
+def reference_text_applies(ev) -> bool:
+    """Mirror of Trace_Text!Predictable, for the evidence counts only (the spec decides)."""
+    if not ev.get("exact_tokens") or "text" not in ev or "am" not in ev:
+        return False
+    return set(ev["tokens"]) <= _REF_VOCAB.get(ev["type"], _REF_VOCAB["fields"])
+
+
 def run(ctx: Ctx):
     q = ctx.quick
     ctx.mc("MC_PatternSemantics", MC_CFG, workers="auto", tag="reference_semantics")
@@ -490,6 +514,11 @@ def run(ctx: Ctx):
         for e in p:
             ctx.notes["events_by_type"][e["type"]] = ctx.notes["events_by_type"].get(e["type"], 0) + 1
     ctx.distinct_nontrivial = len(pats)
+    ctx.notes["texts_compared_with_the_reference_formatter"] = {}
+    for p in parts:
+        for e in p:
+            if reference_text_applies(e):
+                ctx.notes["texts_compared_with_the_reference_formatter"][e["type"]] = ctx.notes["texts_compared_with_the_reference_formatter"].get(e["type"], 0) + 1
     for e in parts[0][:80]:
         if not e["roundtrip_builtin"] and "text" in e and len(e["tokens"]) >= 3:
             ctx.sample({"type": e["type"], "pattern": e["pattern"], "culture": e["culture"], "value": e["value"],
